@@ -54,7 +54,7 @@ class PROP(Prop):
     profiles = ["debug"]
     rule = ("pipelined request sequences (1..12 requests, every variant, random headers) with mixed answered / declined / failing service replies, "
             "delivered to the real TCP and RTU-over-TCP servers in one chunk, byte-wise, and under random chunkings; write scripts with small "
-            "accepts and pendings; the same pipelines written to a pty served by the real serial RTU server (server::rtu, serve_until).  Oracle: the interleaved trace of service invocations and transport writes equals, per request in arrival "
+            "accepts and pendings; a write or flush fault of every kind (incl. Interrupted / WouldBlock) at a random offset of the reply stream (what was written must be a prefix of the replies in order); the same pipelines written to a pty served by the real serial RTU server (server::rtu, serve_until).  Oracle: the interleaved trace of service invocations and transport writes equals, per request in arrival "
             "order, one invocation followed by exactly one spec-encoded reply frame under the request's header (nothing when declined, "
             "fc|0x80 + code when the service failed).  non-trivial = pipeline with >= 2 requests or a split frame")
 
@@ -83,6 +83,30 @@ class PROP(Prop):
                     exp = expected_trace(proto, hdrs, reqs, svc)
                     cs.append(cligen.ser_case(parts, ",".join(svc_tok(e) for e in svc), exp, "w", abort=rng.random() < 0.2,
                                               meta={"proto": "serial", "exp": exp, "k": k, "nparts": len(parts)}))
+            # a write fault of any kind (also the "transient" ones) at any point of the reply stream: whatever was written is a prefix
+            # of the replies in request order -- no reply is started twice, none is written after the fault
+            for _ in range(150 if tier == "quick" else 1500):
+                k = rng.choice([1, 2, 3, 4])
+                frames, hdrs, reqs, svc = gen_pipeline(rng, proto, k)
+                exp = expected_trace(proto, hdrs, reqs, svc)
+                replies = "".join(e[2:] for e in exp if e.startswith("W:"))
+                total = len(replies) // 2
+                if total == 0:
+                    continue
+                off = rng.randrange(total)
+                fault = rng.choice(["e:Interrupted", "e:Interrupted", "e:WouldBlock", "e:TimedOut", "e:BrokenPipe", "e:Other", "z"])
+                pre = []
+                left = off
+                while left > 0:
+                    nacc = rng.randrange(1, left + 1)
+                    pre.append("a%d" % nacc)
+                    left -= nacc
+                if rng.random() < 0.3:
+                    pre = [x for e in pre for x in (e, "p")]
+                W = ",".join(pre + [fault])
+                F = rng.choice(["-", "-", "ok", "e:Interrupted"]) if fault != "z" else "-"
+                line = "SRV %s %s %s %s %s" % (proto, mb.rscript([b"".join(frames)]), W, F, ",".join(svc_tok(e) for e in svc))
+                cs.append(Case(line, {"proto": proto, "wf": True, "replies": replies, "off": off, "fault": fault, "k": k, "nparts": 1}))
         return cs
 
     def project(self, c, s):
@@ -96,6 +120,12 @@ class PROP(Prop):
         tr = (c.impl or "").split(",")
         if "PANIC" in tr:
             return "panic"
+        if c.meta.get("wf"):
+            written = "".join(t[2:] for t in tr if t.startswith("W:"))
+            if not c.meta["replies"].startswith(written):
+                return "after a write fault (%s at offset %d) the bytes written %s... are not a prefix of the replies in request order %s..." % (
+                    c.meta["fault"], c.meta["off"], written[:80], c.meta["replies"][:80])
+            return None
         exp = c.meta["exp"] + ["WAIT"]
         if tr != exp:
             for i, (a, b) in enumerate(zip(tr, exp)):
@@ -105,4 +135,4 @@ class PROP(Prop):
         return None
 
     def nontrivial(self, c):
-        return c.meta["k"] >= 2 or c.meta["nparts"] >= 2
+        return c.meta["k"] >= 2 or c.meta["nparts"] >= 2 or c.meta.get("wf", False)
